@@ -284,6 +284,11 @@ private:
       return (path.empty() ? "/" : path) + "?" + query;
     }
     std::string getHostPort() const { return host + ":" + std::to_string(port); }
+
+    /// \brief Key of the connection cache and of the per-destination lease. It
+    /// includes the scheme: a kept-alive plaintext connection to host:port must
+    /// never be reused for an https request to the same host:port (or vice versa).
+    std::string getConnectionKey() const { return scheme + "://" + getHostPort(); }
   };
 
   /// \brief Move-only RAII guard for an exclusive per-host:port connection lease.
@@ -765,7 +770,7 @@ private:
   /// block lease releases and other hosts' bookkeeping).
   SessionId acquireConnection(const ParsedUrl &parsedUrl)
   {
-    const std::string hostPort = parsedUrl.getHostPort();
+    const std::string hostPort = parsedUrl.getConnectionKey();
 
     // (1) Reuse a live, non-idle cached connection (short critical section).
     {
@@ -949,7 +954,7 @@ private:
                           const std::map<std::string, std::string> &headers)
   {
     auto parsedUrl = parseUrl(url);
-    const std::string hostPort = parsedUrl.getHostPort();
+    const std::string hostPort = parsedUrl.getConnectionKey();
 
     // Use normal timeout - optimization will be handled at transport level
     std::chrono::milliseconds sendTimeout = _config.requestTimeout;
